@@ -6,7 +6,7 @@ from rich.errors import MarkupError
 from rich.markup import escape, render
 from rich.style import Style
 
-from vf.obl import xh
+from vf.obl import symx, xh
 from vf.common import native, over, pin
 from vf import refmodel
 
@@ -31,7 +31,7 @@ def _mk_escape(n, tiers, timeout):
 
 
 for _n, _t, _to in [(0, ("quick", "thorough"), 60), (1, ("quick", "thorough"), 60), (2, ("quick", "thorough"), 120),
-                    (3, ("quick", "thorough"), 300), (4, ("quick", "thorough"), 900), (5, ("thorough",), 3000)]:
+                    (3, ("quick", "thorough"), 300), (4, ("quick", "thorough"), 900), (5, ("quick", "thorough"), 1500)]:
     _mk_escape(_n, _t, _to)
 
 
@@ -146,26 +146,19 @@ def _doc_ok(ks) -> bool:
     return True
 
 
-def _mk_docs(n, tiers, timeout):
-    def pre(k0: int, k1: int, k2: int, k3: int, k4: int) -> bool:
-        ks = [k0, k1, k2, k3, k4]
-        for i, k in enumerate(ks):
-            if i < n:
-                if not 0 <= k < _NT:
-                    return False
-            elif k != 0:
-                return False
-        return True
-
-    @xh("C04-d-documents-%dtokens" % n, pre=pre, tiers=tiers, timeout=timeout, kind="P", functions=F_MK + ["rich/text.py:Text.render"],
-        bounds="every document of %d tokens from %r (solver-enumerated, native): error condition, plain text, and per character "
-               "the effective colour/bold = combination of the open tags, later-opened winning (read from rendered segments)"
-               % (n, _TOKENS))
-    def h(k0: int, k1: int, k2: int, k3: int, k4: int) -> bool:
-        ks = [pin(k, 0, _NT - 1) for k in [k0, k1, k2, k3, k4][:n]]
-        return native(_doc_ok, ks)
+def _mk_docs(n, first, tiers, timeout):
+    @symx("C04-d-documents-%dtokens-first%d" % (n, first), tiers=tiers, timeout=timeout, kind="P",
+          functions=F_MK + ["rich/text.py:Text.render"],
+          bounds="every document of 1..%d tokens from %r starting with token %r (solver-enumerated, native): error condition, plain "
+                 "text, and per character the effective colour/bold = combination of the open tags, later-opened winning (read from "
+                 "rendered segments)" % (n, _TOKENS, _TOKENS[first]))
+    def h(e):
+        k = int(e.mk("ntokens", 1, n))
+        ks = [first] + [int(e.mk("k%d" % i, 0, _NT - 1)) for i in range(1, k)]
+        return _doc_ok(ks)
     return h
 
 
-_mk_docs(3, ("quick", "thorough"), 900)
-_mk_docs(4, ("thorough",), 3400)
+for _f in range(_NT):
+    _mk_docs(5, _f, ("quick", "thorough"), 900)
+    _mk_docs(6, _f, ("thorough",), 3400)
